@@ -185,7 +185,7 @@ def generate(repo):
         step = nat(expr(m.group(1)), {'nx': 'nx', 'nbkpts': 'nbkpts'})
         n2, m2 = f.one(r'xspot = np\.minimum\(xspot, (.+)\)')
         d('bs_everyn_pos', '(nx nbkpts i : nat) : nat', 'Nat.min (%s * i) %s' % (step, nat(expr(m2.group(1)), {'nx': 'nx'})), n)
-        f.one(r"bkpt = x\[xspot\]\.astype\('f'\)")
+        f.one(r"bkpt = x\[xspot\]\.astype\('[fd]'\)")
         n, m = f.one(r'w = \((.+)\) & \((.+)\)')
         env = {'placed': 't', 'startx': 'startx', 'rangex': 'rangex'}
         d('bs_placed_keep', '(startx rangex t : Q) : bool', '%s && %s' % (compare(expr(m.group(1)), env, 'Q'), compare(expr(m.group(2)), env, 'Q')), n)
